@@ -140,6 +140,19 @@ def check(repo: Repo, rep: Report) -> None:
                     rep.ob("Y10-converted-comparisons", g_, f"{g_.qual}: `{short(n_)}`", oth[0].id in (conv | conv_o),
                            f"{g_.qual} compares `{oth[0].id}` with a number although it is not the seconds value obtained from to_seconds(): a due time / "
                            f"period given as a timedelta raises TypeError (delivered as on_error) instead of being scheduled")
+    rep.rule("Y11-timer-dispatch", "timer_ and its variants hand (duetime, period, scheduler) to each other in the callee's parameter order", floor=4)
+    tm_ = repo.module(O + "timer.py")
+    fns_ = {f_.name: f_ for f_ in tm_.root.children if f_.is_func}
+    for f_ in tm_.root.walk():
+        if not f_.is_func:
+            continue
+        for n_ in f_.direct_nodes():
+            if isinstance(n_, ast.Call) and isinstance(n_.func, ast.Name) and n_.func.id in fns_ and n_.func.id.startswith("observable_timer"):
+                callee = fns_[n_.func.id]
+                want = callee.params[:len(n_.args)]
+                got_ = [u(a) for a in n_.args]
+                rep.ob("Y11-timer-dispatch", f_, f"{f_.qual}: `{short(n_, 70)}` -> {callee.name}({', '.join(callee.params)})", got_ == want and not n_.keywords,
+                       f"{f_.qual} calls {callee.name} with {got_} where its parameters are {want}: the due time and the period are exchanged")
     rep.rule("Y7-no-shortcut", "a primitive source factory has one result: the observable built from its subscribe function (no argument-dependent early return)", floor=9)
     for rel_, q_ in (("range.py", "range_"), ("fromiterable.py", "from_iterable_"), ("generate.py", "generate_"), ("generatewithrelativetime.py", "generate_with_relative_time_"),
                      ("returnvalue.py", "return_value_"), ("returnvalue.py", "from_callable_"), ("empty.py", "empty_"), ("throw.py", "throw_"), ("never.py", "never_"),
